@@ -23,6 +23,7 @@ import json
 import multiprocessing
 import os
 import re
+import resource
 import shutil
 import sys
 import time
@@ -386,7 +387,7 @@ def first_wins(pairs):
 def oracle(fails, base, case, cfg, lookups, obs, locinfo):
     """Appends (trigger, what, replay) to `fails`."""
     rep = {k: case[k] for k in ("kind", "pdirs", "pfiles", "dirs", "apps", "app_dirs") if k in case}
-    rep.update(config=cfg, lookups=[p.replace(base, BTOK) for p in lookups])
+    rep.update(config=cfg, lookups=[p.replace(base, BTOK) for p in lookups], base=base)
     locs = obs["locs"]
 
     nfail = {}
@@ -396,6 +397,7 @@ def oracle(fails, base, case, cfg, lookups, obs, locinfo):
         if nfail[trig_] > 3:              # a few per class, configuration and layout are enough
             return
         fails.append((trig_, what.replace(base, BTOK), dict(rep, **{k: (v.replace(base, BTOK) if isinstance(v, str) else v) for k, v in kw.items()})))
+
 
     def regex_reading(name):
         """Verdict if suffix strings were live regex text (the defect fixed by 6dbce54)."""
@@ -634,15 +636,7 @@ def run_case(base, case, thorough=False):
             sv = obs.get("served")
             if sv is not None:
                 reqs = [(p, r) for p, r in zip(lookups, sv["reqs"]) if r[0] != "skip"]
-                idx = {r: i for i, r in enumerate(locs0)}
-                coll, nth, lset = [], {}, set(listed)
-                for q in sv["collect"]:          # copies come location by location: the k-th copy of q belongs to its k-th location
-                    home = [r for r in locs0 if under(q, r) and q != r and (r, q[len(r) + 1:]) in lset]
-                    k = nth.get(q, 0)
-                    nth[q] = k + 1
-                    coll.append((home[k], q[len(home[k]) + 1:]) if k < len(home) else ("\0", q))
-                coll.sort(key=lambda x: (idx.get(x[0], -1), x[1]))
-                sobs.append("(%s, %s, %s)" % (cfg_coq(cfg), clist(["(%s, %s)" % (bstr(p), sres_coq(r)) for p, r in reqs]), pairs_coq(coll)))
+                sobs.append("(%s, %s, %s)" % (cfg_coq(cfg), clist(["(%s, %s)" % (bstr(p), sres_coq(r)) for p, r in reqs]), clist([bstr(q) for q in sv["collect"]])))
     finally:
         shutil.rmtree(base, ignore_errors=True)
         shutil.rmtree(base + "_static", ignore_errors=True)
@@ -686,10 +680,21 @@ class Roots:
             pass
 
 
+def cpu_s():
+    a, b = resource.getrusage(resource.RUSAGE_SELF), resource.getrusage(resource.RUSAGE_CHILDREN)
+    return a.ru_utime + a.ru_stime + b.ru_utime + b.ru_stime
+
+
+def phase(chk, name, t0, c0):
+    d = chk.extra.setdefault("phase_wall_cpu_s", {})
+    w, c = d.get(name, [0, 0])
+    d[name] = [round(w + time.time() - t0, 1), round(c + cpu_s() - c0, 1)]
+
+
 def run_cases(chk, roots, cases, thorough, jobs=None):
     """Run all layout cases on the implementation (process pool), then the model inside Coq; record everything in chk."""
     jobs = jobs or C.NCPU
-    t0 = time.time()
+    t0, c0 = time.time(), cpu_s()
     results = [None] * len(cases)
     pooled = jobs > 1 and len(cases) > 8
     if pooled:
@@ -697,12 +702,15 @@ def run_cases(chk, roots, cases, thorough, jobs=None):
         with ctx.Pool(jobs, initializer=_worker_init, initargs=(roots.base, thorough)) as pool:
             for idx, res in pool.imap_unordered(_worker, list(enumerate(cases)), chunksize=4):
                 results[idx] = res
+            pool.close()
+            pool.join()
     else:
         _worker_init(roots.base, thorough)
         for job in enumerate(cases):
             idx, res = _worker(job)
             results[idx] = res
-    t1 = time.time()
+    phase(chk, "F/X implementation (process pool)", t0, c0)
+    t0, c0 = time.time(), cpu_s()
     fterms, sterms, smap = [], [], []
     for i, res in enumerate(results):
         if pooled:                       # (serial runs have already counted in this process)
@@ -718,13 +726,12 @@ def run_cases(chk, roots, cases, thorough, jobs=None):
             smap.append(i)
     bad = C.coq_eval_cases("C17", "finder", IMPORTS, "finder_case", "check_finder", fterms, shard=max(8, min(40, len(fterms) // (2 * jobs) + 1)))
     for i in bad[:10]:
-        chk.disagree("Finder model != ComponentsFileSystemFinder.find / find(all=True) / list", cases[i])
+        chk.disagree("Finder model != ComponentsFileSystemFinder.find / find(all=True) / list", dict(cases[i], base=os.path.join(roots.base, "%d" % i)))
     bad = C.coq_eval_cases("C17", "served", IMPORTS, "served_case", "check_served", sterms, shard=max(8, min(40, len(sterms) // (2 * jobs) + 1)))
     for i in bad[:10]:
-        chk.disagree("Finder model != staticfiles serve view / collectstatic --dry-run", cases[smap[i]])
-    chk.extra.setdefault("phase_wall_s", {})
-    chk.extra["phase_wall_s"]["F/X implementation"] = round(chk.extra["phase_wall_s"].get("F/X implementation", 0) + t1 - t0, 1)
-    chk.extra["phase_wall_s"]["F/X model (coqc)"] = round(chk.extra["phase_wall_s"].get("F/X model (coqc)", 0) + time.time() - t1, 1)
+        chk.disagree("Finder model != staticfiles serve view / collectstatic --dry-run", dict(cases[smap[i]], base=os.path.join(roots.base, "%d" % smap[i])))
+    phase(chk, "F/X model (coqc, vm_compute)", t0, c0)
+    chk.extra["coq_term_bytes"] = chk.extra.get("coq_term_bytes", 0) + sum(map(len, fterms)) + sum(map(len, sterms))
 
 
 # ------------------------------------------------------------------------------------------------
@@ -997,9 +1004,9 @@ def run_valid_cases(chk, roots, n_cfg, n_names, follow_up):
         terms.append("(%s, %s)" % (cfg_coq(cfg), clist(obs)))
         cases.append((cfg, names))
     shutil.rmtree(root, ignore_errors=True)
-    t0 = time.time()
+    t0, c0 = time.time(), cpu_s()
     bad = C.coq_eval_cases("C17", "valid", IMPORTS, "valid_case", "check_valid", terms, shard=60)
-    chk.extra.setdefault("phase_wall_s", {})["V model (coqc)"] = round(time.time() - t0, 1)
+    phase(chk, "V model (coqc)", t0, c0)
     for i in bad[:10]:
         chk.disagree("is_path_valid model != ComponentsFileSystemFinder._is_path_valid", {"kind": "valid", "config": cases[i][0], "names": cases[i][1]})
     # materialise mismatches against the property's reading as real trees (public API, concrete replay)
@@ -1037,9 +1044,9 @@ def run_sj_cases(chk, maxlen, nrandom):
                 obs.append("(%s, %s)" % (cstr(p), copt(r, lambda v: "(%s, %s)" % (cstr(v[0]), cstr(v[1])))))
             terms.append("(%s, %s)" % (cstr(root), clist(obs)))
             cases.append((root, ps[si:si + 150]))
-    t0 = time.time()
+    t0, c0 = time.time(), cpu_s()
     bad = C.coq_eval_cases("C17", "sj", IMPORTS, "sj_case", "check_sj", terms, shard=8)
-    chk.extra.setdefault("phase_wall_s", {})["J model (coqc)"] = round(time.time() - t0, 1)
+    phase(chk, "J model (coqc)", t0, c0)
     for i in bad[:10]:
         chk.disagree("safe_join/relpath model != django safe_join / os.path.relpath", {"kind": "sj", "root": cases[i][0], "paths": cases[i][1]})
 
@@ -1090,7 +1097,9 @@ def run(tier, seed):
     djsetup.setup()
     gen_constants.generate(["C17"])
     chk = C.Check("C17", tier, seed)
+    t0, c0 = time.time(), cpu_s()
     chk.prove()
+    phase(chk, "proof re-check (make Props/C17.vo)", t0, c0)
     thorough = tier == "thorough"
     roots = Roots()
     from django.test import override_settings
@@ -1203,7 +1212,11 @@ def replay(path):
                            INSTALLED_APPS=["django_components", "django.contrib.staticfiles"] + list(APPS))
     ov.enable()
     try:
-        base = roots.new()
+        # the order of finder.locations depends on the hash of the directory paths: re-create the recorded base directory if possible
+        base = case.get("base")
+        if not (isinstance(base, str) and base.startswith(BASE + "/r") and not os.path.exists(base)):
+            base = roots.new()
+        os.makedirs(os.path.dirname(base), exist_ok=True)
         pdirs = closure_dirs(case["pdirs"], case["pfiles"])
         make_layout(base, pdirs, case["pfiles"])
         set_app_paths(base, case)
@@ -1216,7 +1229,11 @@ def replay(path):
             for p, (r1, ra) in zip(lookups, obs["finds"]):
                 print(" implementation find(%r) -> %r ; all=True -> %r" % (p, r1, ra))
         shutil.rmtree(base, ignore_errors=True)
-        res = run_case(roots.new(), case, False)
+        res = run_case(base, case, False)
+        try:
+            os.rmdir(os.path.dirname(base))
+        except OSError:
+            pass
         bad = C.coq_eval_cases("C17", "replay", IMPORTS, "finder_case", "check_finder", [res["fterm"]])
         if res["sterm"]:
             bad += C.coq_eval_cases("C17", "replays", IMPORTS, "served_case", "check_served", [res["sterm"]])
